@@ -96,4 +96,17 @@ META = {
                 "the model returns a decode error there and no theorem about such inputs is claimed.",
         "technique": "Lean 4 proof: strict-decoder combinators (round trip + all proper prefixes rejected), UTF-8 and varint round trips; differential correspondence",
     },
+    "C13": {
+        "text": "In the Lean model every feature-dependent branch is selected by Cfg (fixed, cache, tagPred) and the property is the "
+                "theorem that the branches coincide: any two configurations give identical scores and boundaries for every "
+                "well-formed model, predictor and non-empty text (C13_scores_cfg_independent, with the three named corollaries "
+                "fixed=variable, cache=automaton, tag scorer=plain), all from C01_scores ('each variant equals the specification'). "
+                "Tied to /repo by compiling one binary per cargo-feature subset (7 quick / 32 thorough, + portable-simd on nightly "
+                "when it builds), running all on the same cases, and comparing each with the model under the matching Cfg and with "
+                "the default build (tags included wherever tag prediction is compiled in).",
+        "design_ref": "DESIGN.md §6 C13",
+        "note": _common_note + "charwise-pma, std and portable-simd have no counterpart in the model (identified implementations); for them the "
+                "check is the feature-matrix run (differential), not a theorem. Tag equality across builds is a differential result until C06 is proved.",
+        "technique": "Lean 4 proof (corollaries of C01_scores over Cfg) + per-feature-subset differential builds",
+    },
 }
